@@ -70,7 +70,7 @@ def pin_of(c, value, arms=None):
         if isinstance(b, tuple) and b and b[0] == "int":
             return a, b[1], (c[1] == "Eq") == (value == 1)
         return None
-    if isinstance(c, tuple) and c and c[0] in ("binop", "discr", "unop"):
+    if isinstance(c, tuple) and c and (c[0] in ("discr", "unop") or (c[0] == "binop" and len(c) == 4 and c[1] in ("Lt", "Le", "Gt", "Ge", "Eq", "Ne"))):
         return None
     if isinstance(value, int) and not isinstance(value, bool):
         return c, value, True
